@@ -213,10 +213,10 @@ func (p *PublicKey) UnmarshalJSON(data []byte) error {
 
 func (p PublicKey) MarshalJSON() ([]byte, error) {
 	b := make([]byte, 0)
-	notEmpty := true
+	notEmpty := false
 	JSONWrite(&b, '{')
 	if v, err := p.ID.MarshalJSON(); err == nil && len(v) > 0 {
-		notEmpty = !JSONWriteProp(&b, "id", v)
+		notEmpty = JSONWriteProp(&b, "id", v)
 	}
 	if len(p.Owner) > 0 {
 		notEmpty = JSONWriteIRIProp(&b, "owner", p.Owner) || notEmpty
